@@ -1046,7 +1046,13 @@ fn verif_c19_faults() {
                 // The fault is confined to one helper: the other two hold the whole input, so a shard of the
                 // faulted helper that reports Ok with fewer records than selected for it is misaligned with its
                 // peers on the other helpers. Records the failed stream never yielded count as dropped too.
-                need[t].insert(*id);
+                // A stream that is LONGER than its size hint is a broken promise of the caller, not an error item of the
+                // stream: the send channels are declared with the hint as their total and close by themselves once that many
+                // records went to one destination, so a peer can legitimately finish with everything up to the hint. Only the
+                // records consumed before the overrun are required there (the overrunning shard itself must return Err).
+                if !matches!(fault, Fault::LongerThanHint { .. }) || p < consumed(o) {
+                    need[t].insert(*id);
+                }
                 if p >= consumed(o) {
                     beyond[t].insert(*id);
                 }
